@@ -49,6 +49,18 @@ CHECKS = {
         "assumptions": COMMON_ASSUME,
         "design_ref": "DESIGN.md §5 C08",
     },
+    "C09": {
+        "level": "model_checking", "shards": 6, "deadline_quick": 100, "deadline_thorough": 1500,
+        "engine": "E-WORLD",
+        "technique": "explicit-state model checking of the implementation: BFS by replay around one real gossipsub node with peer scoring; every threshold is approached from both sides and at equality through the application-specific score",
+        "rule": WORLD_RULE,
+        "level_text": "every history up to the depth bound over score levels below / at / above the graylist, gossip, publish, zero and accept-PX thresholds, each RPC kind from scored and direct peers, "
+                      "PRUNE with peer exchange (valid record, record of another peer, garbage, no record, wrong-domain envelope), local publishes, join/leave and heartbeats; "
+                      "the statement's table is judged on wire log, in-loop snapshots and recorded host.Connect attempts",
+        "level_note": "the validation-overload gater clause is not driven yet (no throttling scenario); PX entries without a record are not judged",
+        "assumptions": COMMON_ASSUME,
+        "design_ref": "DESIGN.md §5 C09",
+    },
     "C11": {
         "level": "exploration", "shards": 16, "deadline_quick": 100, "deadline_thorough": 1500,
         "engine": "E-SEQ (inputs)",
